@@ -135,3 +135,51 @@ pub fn par_map<T: Sync, R: Send>(items: &[T], f: impl Fn(&T) -> R + Sync) -> Vec
     });
     out.into_iter().flatten().collect()
 }
+
+/// Exact text of a finite double: integers in decimal, otherwise `<odd mantissa>p<exponent>`.
+pub fn fmt_f64(x: f64) -> String {
+    if x == 0.0 {
+        return "0".to_string();
+    }
+    if x.fract() == 0.0 && x.abs() < 1e38 {
+        return format!("{}", x as i128);
+    }
+    let bits = x.to_bits();
+    let sign = if (bits >> 63) != 0 { -1i128 } else { 1 };
+    let exp = ((bits >> 52) & 0x7ff) as i64;
+    let frac = (bits & 0xf_ffff_ffff_ffff) as i128;
+    let (mut m, mut e) = if exp == 0 { (frac, -1074i64) } else { (frac | (1i128 << 52), exp - 1075) };
+    while m != 0 && m % 2 == 0 {
+        m /= 2;
+        e += 1;
+    }
+    if e >= 0 {
+        // integral but huge
+        return format!("{}p{}", sign * m, e);
+    }
+    format!("{}p{}", sign * m, e)
+}
+
+pub fn duration_from(t: &[&str]) -> Result<temporal_rs::Duration, TemporalError> {
+    use temporal_rs::primitive::FiniteF64;
+    let f = |s: &str| -> Result<FiniteF64, TemporalError> { FiniteF64::try_from(i(s) as f64) };
+    temporal_rs::Duration::new(
+        f(t[0])?, f(t[1])?, f(t[2])?, f(t[3])?, f(t[4])?, f(t[5])?, f(t[6])?, f(t[7])?, f(t[8])?, f(t[9])?,
+    )
+}
+
+pub fn fmt_duration(d: &temporal_rs::Duration) -> String {
+    [
+        d.years(), d.months(), d.weeks(), d.days(), d.hours(), d.minutes(), d.seconds(), d.milliseconds(),
+        d.microseconds(), d.nanoseconds(),
+    ]
+    .iter()
+    .map(|x| fmt_f64(x.as_inner()))
+    .collect::<Vec<_>>()
+    .join(" ")
+}
+
+/// A random integer that is exactly representable as a double (rounded through f64).
+pub fn f64_int(x: i128) -> i128 {
+    (x as f64) as i128
+}
